@@ -6,8 +6,8 @@ Transcribed (snapshot ef0888e + the `fix:` commits listed in findings/C18.txt):
   (key, ' ', fields, ' ', `UnixNano()/multiplier`) together with the ESCAPING functions of
   influxdb/models it calls (`EscapeMeasurement ∘ unescapeMeasurement`, `escapeTag`, `escape.String`,
   `EscapeStringField`, `appendField`, tags with an empty value are skipped)                      → `record`;
-* `replay.go` `readPointsFromIO`: `bufio.Scanner` line splitting (split at '\n', one trailing '\r' dropped, 64 KiB
-  token limit), three lines per point, first parse error ends the reading                        → `scanLines`, `frames`, `readStream`;
+* `replay.go` `readPointsFromIO`: `bufio.Scanner` line splitting (split at '\n', one trailing '\r' dropped, token
+  limit 64 MiB since 45d6388), three lines per point, first parse error ends the reading                        → `scanLines`, `frames`, `readStream`;
 * `replay.go` `replayStreamFromChan` / `replayBatchFromChan`: `diff = zero − first`, wait time, shifted time,
   batch `tmax` rule                                                                              → `replayStream`, `replayBatches`;
 * `edge/messages.go` `bufferedBatchMessage.MarshalJSON/UnmarshalJSON`, `readBatchFromIO`: at VALUE level — numbers
@@ -167,8 +167,11 @@ def record (F : FloatCodec) (mult : Int) (ps : List SPoint) : Bytes := writeFram
 
 /-! ### The reader: `bufio.Scanner` + three lines per point -/
 
-/-- `bufio.MaxScanTokenSize`. -/
-def maxTok : Nat := 65536
+/-- `maxRecordingLineSize` (64 MiB), the Scanner's token limit since the `fix:` commit 45d6388. -/
+def maxTok : Nat := 67108864
+
+/-- `bufio.MaxScanTokenSize` (64 KiB), the limit of the snapshot. -/
+def maxTokOld : Nat := 65536
 
 /-- `dropCR`. -/
 def dropCR (l : Bytes) : Bytes :=
